@@ -2,12 +2,13 @@
 # usage: regress_mutants.sh [id ...]  -- applies every kept seeded change (or the named ones) to a scratch copy of /repo in turn (trymut.sh),
 # runs the quick check of the property it breaks, reverts, and reports which are (still) detected.
 # A patch that no longer applies (the code it touched was repaired since) is reported as "stale".
-cd /verif || exit 2
+cd "$(dirname "$(readlink -f "$0")")" || exit 2
+V=$(pwd)
 ids="$@"; [ -z "$ids" ] && ids=$(ls seeded)
 ok=0; miss=0; stale=0
 for id in $ids; do
   prop=$(python3 -c "import json;m=json.load(open('seeded/$id/meta.json'));print(m.get('regress_with_check') or m['breaks_property'])")
-  out=$(./trymut.sh /verif/seeded/$id/patch.diff $prop 2>&1); rc=$?
+  out=$(./trymut.sh $V/seeded/$id/patch.diff $prop 2>&1); rc=$?
   if echo "$out" | grep -q "patch does not apply"; then echo "$id stale (patch no longer applies)"; stale=$((stale+1)); continue; fi
   if [ $rc -eq 1 ]; then echo "$id detected by $prop: $(echo "$out" | grep -E '^  [a-z-]+/' | head -1 | cut -c1-160)"; ok=$((ok+1));
   else echo "$id MISSED by $prop (rc=$rc): $(echo "$out" | grep tier= | head -1)"; miss=$((miss+1)); fi
